@@ -90,6 +90,10 @@ def run(model, tier="quick"):
                   FX, opaque=OPQ, keep_raise_effects=False)
     loop_shape(model, res)
     res.floor("functions_reachable_from_liquidation", effect_rule(model, res), 5)
+    from ..rules.fresh import fresh_rule
+    if "R-FRESH" not in res.rules:
+        res.rules.append("R-FRESH")
+    fresh_rule(model, res, scope=('demeter/aave/',))
     res.assumptions = ["pair selection (largest collateral, smallest debt) is left open by the statement and is not checked"]
     res.not_decided = ["whether the chosen (collateral, debt) pair is the protocol's choice",
                        "that HF >= 1 after the loop for every portfolio (value dependent)"]
